@@ -615,6 +615,43 @@ func checkSharedState(c *core.Ctx, l *core.Ledger) {
 				l.Bad("NO-SHARED-STATE", key, c.Rel(g.Pos()), "package-level variable is written after initialisation: "+strings.Join(bad, "; "))
 				continue
 			}
+			// a package-level slice is handed to every caller: it shares no memory only if it has no elements
+			if _, isSl := g.Type().Underlying().(*types.Pointer).Elem().Underlying().(*types.Slice); isSl && !strings.HasPrefix(rel, "gen/") {
+				// (generated packages export Thrift list constants as variables by design: not judged)
+				nonEmpty := ""
+				var inits []ssa.Instruction
+				for _, w := range writes[g] {
+					inits = append(inits, w.in)
+				}
+				if initFn := sp.Func("init"); initFn != nil {
+					core.Instrs(initFn, func(in ssa.Instruction) { inits = append(inits, in) })
+				}
+				for _, in := range inits {
+					st, isSt := in.(*ssa.Store)
+					if !isSt || st.Addr != ssa.Value(g) {
+						continue
+					}
+					switch v := st.Val.(type) {
+					case *ssa.MakeSlice:
+						ln, okL := core.ConstInt(v.Len)
+						cp, okC := core.ConstInt(v.Cap)
+						if !okL || !okC || ln != 0 || cp != 0 {
+							nonEmpty = "initialised with make(..., " + core.Sym(v.Len) + ", " + core.Sym(v.Cap) + ")"
+						}
+					case *ssa.Slice:
+						if w, okW := core.ConstSliceWidth(v); !okW || w != 0 {
+							nonEmpty = "initialised with a non-empty literal"
+						}
+					case *ssa.Const:
+					default:
+						nonEmpty = "initialised with " + core.Sym(st.Val)
+					}
+				}
+				if nonEmpty != "" {
+					l.Bad("NO-SHARED-STATE", key, c.Rel(g.Pos()), "package-level slice with elements ("+nonEmpty+"): every caller that receives it shares its backing array")
+					continue
+				}
+			}
 			if os.Getenv("VDEBUG") != "" {
 				fmt.Fprintf(os.Stderr, "C18 global %s : %s\n", key, core.TypeLabel(g.Type()))
 			}
